@@ -184,8 +184,33 @@ class Rewrites(Suite):
         mk = lambda sel: dict(classes=cls, files={}, context=None, base={'name': 'm', 'data': {'tasks': ['@M.*'], 'sel': sel}})
         auto = lambda d: {'__auto__': 'AutoA', 'args': {'a': d, 'b': 2}}
         inst = lambda kw: {'__inst__': 'Plain', 'args': [1], 'kwargs': kw}
-        return [dict(orig=mk(inst({'k': 1, 'a': 2})), rewr=mk(inst({'a': 2, 'k': 1})), moves=['permute-object-args'], prefix=''),
-                dict(orig=mk({'k': {'z': 1, 'b': 'q'}}), rewr=mk({'k': {'b': 'q', 'z': 1}}), moves=['permute'], prefix='')]
+        out = [dict(orig=mk(inst({'k': 1, 'a': 2})), rewr=mk(inst({'a': 2, 'k': 1})), moves=['permute-object-args'], prefix=''),
+               dict(orig=mk({'k': {'z': 1, 'b': 'q'}}), rewr=mk({'k': {'b': 'q', 'z': 1}}), moves=['permute'], prefix='')]
+        # mapping keys permuted inside programmatically built data whose mappings are subclasses of dict
+        for kind in ('ordered', 'attr', 'default'):
+            out.append(dict(orig=dict(mk({'k': {'z': 1, 'b': {'y': [1], 'a': 2}}}), mapping_class=kind),
+                            rewr=dict(mk({'k': {'b': {'a': 2, 'y': [1]}, 'z': 1}}), mapping_class=kind), moves=['permute'], prefix=''))
+        # a default-valued parameter (dont_persist_default_value) spelled out in the config, for each dtype
+        for dt, default, spelled in (('path', '/data/work', '/data/work'), ('int', 3, 3), ('float', 2.5, 2.5), ('str', 'd', 'd'),
+                                     ('list', [1, 'd'], [1, 'd']), ('dict', {'a': 1}, {'a': 1}), ('bool', True, True), ('any', None, None)):
+            c2 = [dict(K(0, 'Src', params=[P('sel'), P('opt', default=[default], dropdef=True, dtype=dt)]), name='src'),
+                  dict(K(1, 'Dst', meta_inputs=[{'cls': 0}]), name='dst')]
+            if default is None:
+                continue
+            a = dict(classes=c2, files={}, context=None, base={'name': 'm', 'data': {'tasks': ['@M.*'], 'sel': 1}})
+            b = dict(classes=c2, files={}, context=None, base={'name': 'm', 'data': {'tasks': ['@M.*'], 'sel': 1, 'opt': spelled}})
+            out.append(dict(orig=a, rewr=b, moves=['spell-out-default:' + dt], prefix=''))
+        # inputs collected by a pattern: the order in which the tasks are declared must not matter
+        parts = [dict(K(i, f'Part{i}', params=[P('sel')]), name=f'part_{n}') for i, n in enumerate(['b', 'a', 'c'])]
+        coll = dict(K(3, 'Collect', meta_inputs=[{'name': '~part_.*'}]), name='collect')
+        top = dict(K(4, 'Top', meta_inputs=[{'cls': 3}]), name='top')
+        for order in ([0, 1, 2, 3, 4], [2, 0, 1, 3, 4], [1, 2, 0, 4, 3]):
+            names = [f'@M.{(parts + [coll, top])[i]["cname"]}' for i in order]
+            base0 = {'name': 'm', 'data': {'tasks': ['@M.Part0', '@M.Part1', '@M.Part2', '@M.Collect', '@M.Top'], 'sel': 1}}
+            out.append(dict(orig=dict(classes=parts + [coll, top], files={}, context=None, base=base0),
+                            rewr=dict(classes=parts + [coll, top], files={}, context=None,
+                                      base={'name': 'm', 'data': {'tasks': names, 'sel': 1}}), moves=['permute-tasks'], prefix=''))
+        return out
 
     def gen(self, rng, tier):
         from ..gen_pipeline import gen_case
@@ -390,9 +415,87 @@ def hash_seed_class(violation, known):
     return violation.get('suite') == 'fresh_interpreters' and has_set_attribute(violation.get('case', {}).get('case', {}))
 
 
+PATH_SRC = '''
+from pathlib import Path
+from taskchain import Task, Parameter
+
+class Load(Task):
+    class Meta:
+        parameters = [Parameter('source'),
+                      Parameter('workdir', dtype=Path, default=__DEFAULT__, dont_persist_default_value=True),
+                      Parameter('limit', dtype=int, default=10, dont_persist_default_value=True)]
+    def run(self, source, workdir, limit) -> str:
+        return f'{source}@{workdir}[:{limit}]'
+
+class Stats(Task):
+    class Meta:
+        input_tasks = [Load]
+    def run(self, load) -> int:
+        return len(load)
+'''
+
+
+class PathDefaults(Suite):
+    """a Path-typed parameter excluded from persistence while it equals its default (dont_persist_default_value), the
+    default being a Path object or a string: leaving the parameter out, and spelling the default out as the string a
+    JSON / YAML config necessarily holds, describe one computation and get one location - when the library treats the
+    omitted and the spelled form alike for that kind of default at all (it does for Path-object defaults; with a string
+    default the parameter is persisted in both forms).  Runtime check only: the model knows string defaults."""
+    name = 'path_defaults'
+    model = ''
+
+    def gen(self, rng, tier):
+        return [dict(default=d, spelled=sp, where=w) for d in ("Path('/data/work')", "'/data/work'")
+                for sp in ('/data/work', '/data/work/', '/data//work', '/data/other') for w in ('config', 'context')]
+
+    def run_impl(self, case):
+        import sys, types
+        from pathlib import Path
+        from taskchain import Config
+        with pl.workspace(dict(classes=[], files={})) as (d, _):
+            name = 'tcv_pathdefaults'
+            m = types.ModuleType(name)
+            sys.modules[name] = m
+            try:
+                exec(compile(PATH_SRC.replace('__DEFAULT__', case['default']), name, 'exec'), m.__dict__)
+                data = {'tasks': [f'{name}.*'], 'source': 's'}
+                implicit = Config(Path('data'), name='implicit', data=dict(data)).chain()
+                if case['where'] == 'config':
+                    explicit = Config(Path('data'), name='explicit', data=dict(data, workdir=case['spelled'], limit=10)).chain()
+                else:
+                    explicit = Config(Path('data'), name='explicit', data=dict(data), context={'workdir': case['spelled'], 'limit': 10}).chain()
+                return dict(implicit={n: [str(t.path), t.name_for_persistence, str(t.params['workdir']) if 'workdir' in t.params else None]
+                                      for n, t in implicit.tasks.items()},
+                            explicit={n: [str(t.path), t.name_for_persistence, str(t.params['workdir']) if 'workdir' in t.params else None]
+                                      for n, t in explicit.tasks.items()})
+            finally:
+                sys.modules.pop(name, None)
+
+    def oracle(self, case, obs):
+        if 'unexpected_exception' in obs:
+            return f'unexpected exception {obs["unexpected_exception"]}: {obs["text"]}'
+        from pathlib import Path
+        same_value = Path(case['spelled']) == Path('/data/work')
+        object_default = case['default'].startswith('Path')
+        for n, a in obs['implicit'].items():
+            b = obs['explicit'][n]
+            if same_value and object_default and a[1] != b[1]:
+                return (f'{case}: {n} is stored under {a[1]} when the parameter is left out and under {b[1]} when its default '
+                        f'is spelled out ({case["where"]})')
+            if not same_value and a[1] == b[1]:
+                return f'{case}: {n} has one location for workdir {a[2]} and {b[2]}'
+        return None
+
+    def nontrivial(self, case, obs):
+        return True
+
+    def key(self, case):
+        return repr(case)
+
+
 class C02(Prop):
     pid = 'C02'
-    suites = [Rewrites(), Registry(), ObjectArgOrder(), HashSeeds()]
+    suites = [Rewrites(), Registry(), ObjectArgOrder(), HashSeeds(), PathDefaults()]
     known_classes = {'object-argument-order': object_order_class, 'object-argument-order-registry': object_arg_order_class,
                      'hash-seed-set-attribute': hash_seed_class}
     trusted_base = ['the interpreter hash seed is not in the model (partial): it is exercised by fresh interpreters only']
